@@ -1189,6 +1189,10 @@ func (rn *runner) writeCase(c wcase, tag string) {
 		in["kind"] = "write"
 		return in
 	}
+	if c.DirForm != dirFormLink {
+		// the translated txtar.Write on the same request (src.go)
+		rn.srcWrite(writeReq(root, c, r.before), got, input, key, tag == "corpus" || tag == "replay")
+	}
 	for _, o := range writeOracles(c, r) {
 		res.Count("oracle-fails:" + o)
 		cc := c
@@ -1381,6 +1385,8 @@ func (rn *runner) cliCase(c ccase, tag string) {
 			Model: mt, Impl: common.Hex(r.archive), Key: "savedirtree:" + mustJSON(c),
 			Detail: "model savedir_tree (filepath.Walk on the tree) and the bytes printed by txtar-c differ"})
 	}
+	// the translated walk function of txtar-c under the hand-modelled filepath.Walk (src.go)
+	rn.srcSavedirTree(tparts, common.Hex(r.archive), in, mustJSON(c))
 	// model: the txtar-x command line on those bytes, into an empty directory
 	mext := rn.m.Ask1(rn.xmainReq(c, r))
 	snap := map[string]obj{}
@@ -1822,6 +1828,8 @@ func main() {
 	}
 	defer m.Close()
 	rn := &runner{f: f, res: res, m: m}
+	startSrc(f, res) // src.go: the second model binary with the translated functions
+	defer stopSrc()
 	// permission bits are compared under a fixed umask
 	syscall.Umask(harnessUmask)
 	for _, k := range []struct {
@@ -2123,5 +2131,7 @@ func main() {
 		}
 	}
 	res.Rule = fmt.Sprintf("corpus; descriptor traces (inotify) of %d archives of up to %d entries, %d fault cases (RLIMIT_FSIZE / no free descriptor) in child processes, %d big archives under a descriptor budget, big trees through every route of the commands; ", nTrace, maxTrace, nFault, nBig) + fmt.Sprintf("every string over {/ . a \\} up to length %d for Clean/Dir/IsAbs/Join; txtar.Write of every name of 1..3 segments over %q in %d sandbox scenarios (plus slash/absolute variants and %d ways of naming the directory), then %d random archives of 1..4 entries with names of up to 4 segments over %q incl. duplicates; txtar-c|txtar-x on generated trees x {-quote} x {-a}; a Write case is non-trivial when a name contains \"..\", is absolute, empty or \".\", or the archive has several entries or the scenario has pre-existing objects in the target; distinct = distinct case", maxLen, segSmall, nScenarios, nDirForms, nRand, segBig)
+	res.Rule += "; the functions translated from the source (src.go: txtar.Write on every third Write case and on the corpus, the walk function of txtar-c under the hand-modelled Walk on every generated tree of up to ~100 entries; all of them in the thorough tier) are run over the file-system model and compared with the implementation"
+	srcTimes(res)
 	res.Write(f.Out)
 }
